@@ -2,7 +2,10 @@ module gosym
 
 go 1.23
 
-require golang.org/x/tools v0.29.0
+require (
+	golang.org/x/crypto v0.0.0-20210322153248-0c34fe9e7dc2
+	golang.org/x/tools v0.29.0
+)
 
 require (
 	golang.org/x/mod v0.22.0 // indirect
